@@ -53,6 +53,7 @@ int save_context (error_context_t * econ) {
   econ->save_num_objects_this_thread = get_load_object_limits ();
   econ->save_illegal_sentence_action = illegal_sentence_action;
   econ->save_last_verb = last_verb;
+  econ->save_error_state = get_error_state (~0);
   econ->save_in_mudlib_error_handler = in_mudlib_error_handler;
   econ->save_sp = sp;           /* stack pointer */
   econ->save_csp = csp;         /* control stack pointer */
@@ -86,7 +87,10 @@ void pop_context (error_context_t * econ) {
   error_context_t* ec;
 
   current_error_context = econ->save_context;
-  clear_error_state ();
+  /* the limit flags (eval cost, stack full) are NOT cleared here: a catch or a
+   * safe_apply that completes between the raising site and do_catch() -- in the
+   * master's error_handler(), in dump_trace() -- must not make the limit error
+   * catchable.  error_handler() clears them when the error leaves the last catch. */
 
   ec = current_error_context;
   while(ec) {
@@ -247,9 +251,13 @@ void error_handler (const char *err) {
         longjmp (current_error_context->context, 1);
     }
 
-  /* no catch is going to look at the limit flags any more: the error is on
-   * its way to the driver (or to a safe_apply) */
+  /* no catch is going to look at the flags of THIS error any more: it is on its
+   * way to the driver or to a safe_apply.  Flags that were already pending when
+   * that context was saved (a limit error that is still being reported: this
+   * may be a safe_apply made by the master's error_handler()) stay. */
   clear_error_state ();
+  if (current_error_context)
+    set_error_state (current_error_context->save_error_state);
 
   if (in_error)
     {
